@@ -45,6 +45,21 @@ class ShimOutOfBounds(Exception):
     """An index that would be undefined behaviour in the compiled extension."""
 
 
+def shim_gap(exc):
+    """True when an exception raised while executing transliterated .pyx code shows
+    that the transliteration (not the library) is at fault: an undefined name.  Cython
+    rejects undeclared names at compile time, so a tree whose .pyx really contains one
+    does not build; either way it is not a verdict about the property."""
+    if not isinstance(exc, NameError) or isinstance(exc, UnboundLocalError):
+        return False
+    tb = exc.__traceback__
+    last = None
+    while tb is not None:
+        last = tb
+        tb = tb.tb_next
+    return last is not None and last.tb_frame.f_code.co_filename.startswith("<shim:")
+
+
 class StrictArray(np.ndarray):
     def __getitem__(self, key):
         if isinstance(key, (int, np.integer)):
@@ -140,6 +155,38 @@ def _icast(v):
     return int(v)
 
 
+_INT_POISON = -(2 ** 31)
+
+
+class _Struct(object):
+    """A C struct: typed fields, uninitialised on declaration (doubles NaN, integers
+    a poison value that traps when used as an index), `p[0]` dereferences."""
+    _fields = ()
+
+    def __init__(self):
+        for name, ctype, size in self._fields:
+            if size is not None:
+                object.__setattr__(self, name, np.full(int(size), np.nan) if ctype == "double"
+                                   else np.full(int(size), _INT_POISON, dtype=np.int64))
+            else:
+                object.__setattr__(self, name, np.float64(np.nan) if ctype == "double"
+                                   else _INT_POISON)
+
+    def __setattr__(self, name, v):
+        for fname, ctype, size in self._fields:
+            if fname == name:
+                if size is not None:
+                    raise ShimError("assignment to a C array member")
+                object.__setattr__(self, name, _f64(v) if ctype == "double" else _cint(v))
+                return
+        raise AttributeError("struct has no member %r" % name)
+
+    def __getitem__(self, k):
+        if k != 0:
+            raise ShimOutOfBounds("pointer arithmetic on a struct pointer")
+        return self
+
+
 def fabs(x):
     return np.float64(abs(np.float64(x)))
 
@@ -207,8 +254,10 @@ def _norm_type(t):
     if t in _DBL_TYPES:
         return "double"
     return t
-_RET = r"(?:long\s+double|double|float|int|long|void|bint|Py_ssize_t|object|tuple|list)"
-_TAIL = r"(?:\s*(?:nogil|noexcept|except\s*[-+*?\w.]*))*"
+_RET = (r"(?:" + "|".join(re.escape(t).replace(r"\ ", r"\s+") for t in
+                          sorted(_INT_TYPES + _DBL_TYPES, key=len, reverse=True))
+        + r"|void|object|tuple|list|\([\w\s,.]*\))")
+_TAIL = r"(?:\s*(?:nogil|noexcept|except\s*\??\s*[-+*\w.]*))*"
 _SIG_RE = re.compile(r"^(\s*)(def|cdef|cpdef)\s+(?:inline\s+)?(?:" + _RET + r"\s+)?"
                      r"(\w+)\s*\((.*)\)" + _TAIL + r"\s*:\s*$", re.S)
 _CDEF_FUNC_RE = re.compile(r"^\s*c(?:p)?def\s+(?:inline\s+)?(?:" + _RET + r"\s+)?\w+\s*\(.*\)"
@@ -308,6 +357,64 @@ def _split_args(s):
     return args
 
 
+_MV_RE = re.compile(
+    r"^(?:const\s+)?(?:double|np\.float64_t|np\.float_t|np\.double_t)\s*\[\s*::?\s*1?\s*\]"
+    r"|^np\.ndarray\s*\[\s*(?:np\.float64_t|np\.float_t|np\.double_t|double)\s*,\s*ndim\s*=\s*1\s*"
+    r"(?:,\s*mode\s*=\s*['\"]c['\"]\s*)?\]")
+_SCALAR_RES = [(re.compile(r"^(?:const\s+)?" + re.escape(t).replace(r"\ ", r"\s+") + r"(?![\w.\[])"),
+                _norm_type(t))
+               for t in sorted(_INT_TYPES + _DBL_TYPES, key=len, reverse=True)]
+
+
+def _match_type(s):
+    """-> (normalised type or None, remainder of s)"""
+    m = _MV_RE.match(s)
+    if m:
+        return "double[:]", s[m.end():].strip()
+    for rx, nt in _SCALAR_RES:
+        m = rx.match(s)
+        if m and s[m.end():m.end() + 1] in (" ", "\t"):
+            return nt, s[m.end():].strip()
+    return None, s
+
+
+def _split_assign(body):
+    """splits a statement at its top-level assignment signs ('=' that is not part of
+    ==, <=, >=, !=, +=, ... and not inside brackets or strings)"""
+    parts = []
+    cur = ""
+    depth = 0
+    q = None
+    i = 0
+    while i < len(body):
+        ch = body[i]
+        if q:
+            cur += ch
+            if ch == "\\" and i + 1 < len(body):
+                cur += body[i + 1]
+                i += 1
+            elif ch == q:
+                q = None
+        elif ch in "'\"":
+            q = ch
+            cur += ch
+        elif ch in "([{":
+            depth += 1
+            cur += ch
+        elif ch in ")]}":
+            depth -= 1
+            cur += ch
+        elif (ch == "=" and depth == 0 and body[i + 1:i + 2] != "="
+              and (i == 0 or body[i - 1] not in "=!<>+-*/%&|^@:")):
+            parts.append(cur)
+            cur = ""
+        else:
+            cur += ch
+        i += 1
+    parts.append(cur)
+    return parts
+
+
 def _parse_arg(a):
     """'double[:] s1' / 'double MRTS=0.' / 'int RI = 0' / 'a' ->
     (ctype or None, name, default or None)"""
@@ -321,19 +428,119 @@ def _parse_arg(a):
         elif ch == "=" and depth == 0:
             a, default = a[:pos].strip(), a[pos + 1:].strip()
             break
-    ctype = None
-    for t in sorted(_CTYPES, key=len, reverse=True):
-        if a.startswith(t + " ") or a.startswith(t + "\t"):
-            ctype = _norm_type(t)
-            a = a[len(t):].strip()
-            break
+    ctype, a = _match_type(a)
+    mp = re.match(r"^(?:const\s+)?\w+\s*\*\s*(\w+)$", a)
+    if ctype is None and mp:
+        a = mp.group(1)          # pointer to a struct: passed by reference as it is
     if not re.match(r"^\w+$", a):
         raise ShimError("cannot parse argument %r" % a)
     return ctype, a, default
 
 
+def _prepass(text):
+    """ctypedef aliases of scalar types are substituted textually; DEF constants and
+    the members of anonymous `cdef enum:` blocks become module-level assignments."""
+    aliases = {}
+    lines = []
+    enum_indent = None
+    struct = None          # (indent, name, fields)
+    structs = set()
+
+    def close_struct():
+        ind, name, fields = struct
+        lines.append(" " * ind + "class %s(_Struct):" % name)
+        lines.append(" " * ind + "    _fields = (%s)" % "".join(
+            "(%r, %r, %s), " % (f, t, sz if sz is not None else "None") for f, t, sz in fields))
+        structs.add(name)
+
+    for raw in text.split("\n"):
+        code = _strip_comment(raw)
+        body = code.strip()
+        indent = len(code) - len(code.lstrip())
+        if struct is not None:
+            if body and indent > struct[0]:
+                # <type> name[, name...]  or  <type> name[SIZE]   (aliases resolved later:
+                # remember the raw type word(s))
+                mm = re.match(r"^(.*?)\s+([\w\s,\[\]]+)$", body)
+                if not mm:
+                    raise ShimError("cannot parse struct member %r" % body)
+                for item in mm.group(2).split(","):
+                    item = item.strip()
+                    ms = re.match(r"^(\w+)\s*\[\s*(\w+)\s*\]$", item)
+                    if ms:
+                        struct[2].append((ms.group(1), mm.group(1).strip(), ms.group(2)))
+                    elif re.match(r"^\w+$", item):
+                        struct[2].append((item, mm.group(1).strip(), None))
+                    else:
+                        raise ShimError("cannot parse struct member %r" % body)
+                continue
+            if body:
+                close_struct()
+                struct = None
+        m = re.match(r"^c(?:type)?def\s+struct\s+(\w+)\s*:$", body)
+        if m:
+            struct = (indent, m.group(1), [])
+            continue
+        if enum_indent is not None:
+            if body and indent > enum_indent:
+                for item in body.split(","):
+                    item = item.strip()
+                    if not item:
+                        continue
+                    if "=" in item:
+                        name, val = [x.strip() for x in item.split("=", 1)]
+                        lines.append(" " * enum_indent + "%s = %s" % (name, val))
+                        lines.append(" " * enum_indent + "_enum_next = %s + 1" % name)
+                    else:
+                        lines.append(" " * enum_indent + "%s = _enum_next" % item)
+                        lines.append(" " * enum_indent + "_enum_next = %s + 1" % item)
+                continue
+            if body:
+                enum_indent = None
+        m = re.match(r"^ctypedef\s+(.+?)\s+(\w+)$", body)
+        if m and not m.group(1).startswith(("struct", "enum", "union", "fused")):
+            aliases[m.group(2)] = m.group(1).strip()
+            continue
+        m = re.match(r"^DEF\s+(\w+)\s*=\s*(.+)$", body)
+        if m:
+            lines.append(" " * indent + "%s = %s" % (m.group(1), m.group(2)))
+            continue
+        if re.match(r"^c(p)?def\s+enum\s*:$", body):
+            enum_indent = indent
+            lines.append(" " * indent + "_enum_next = 0")
+            continue
+        lines.append(raw)
+    if struct is not None:
+        close_struct()
+    text = "\n".join(lines)
+    # aliases may refer to aliases
+    for _ in range(4):
+        for a, t in list(aliases.items()):
+            for b in aliases:
+                aliases[a] = re.sub(r"\b%s\b" % re.escape(b), aliases[b], aliases[a]) \
+                    if b != a else aliases[a]
+    for a, t in aliases.items():
+        text = re.sub(r"(?<![\w.])%s\b" % re.escape(a), t, text)
+    # member types of the structs -> normalised
+    def fix_fields(m):
+        items = re.findall(r"\('(\w+)', '([^']*)', (\w+)\)", m.group(0))
+        out = []
+        for f, t, sz in items:
+            nt, rest = _match_type(t + " x")
+            if nt not in ("double", "int"):
+                raise ShimError("unsupported struct member type %r" % t)
+            out.append("(%r, %r, %s), " % (f, nt, sz))
+        return "_fields = (" + "".join(out) + ")"
+    text = re.sub(r"_fields = \(.*\)", fix_fields, text)
+    if structs:
+        # address-of: f(&st1) -> f(st1)
+        text = re.sub(r"(?<=[(,\s=])&(?=[A-Za-z_])", "", text)
+    return text, structs
+
+
 def translate(text, modname="?"):
     """Cython subset -> Python source."""
+    text, structs = _prepass(text)
     out = []
     # typed locals of the function currently being translated
     types_stack = [dict()]
@@ -355,6 +562,16 @@ def translate(text, modname="?"):
             func_indent.pop()
             types_stack.pop()
         if re.match(r"^(from\s+\S+\s+)?cimport\b", body):
+            # aliases:  from libc.math cimport fmin as c_fmin / cimport numpy as cnp
+            mm = re.match(r"^from\s+\S+\s+cimport\s+(.*)$", body)
+            if mm:
+                for item in mm.group(1).strip("() ").split(","):
+                    ma = re.match(r"^\s*(\w+)\s+as\s+(\w+)\s*$", item)
+                    if ma:
+                        out.append(" " * indent + "%s = %s" % (ma.group(2), ma.group(1)))
+            mm = re.match(r"^cimport\s+numpy\s+as\s+(\w+)$", body)
+            if mm and mm.group(1) != "np":
+                out.append(" " * indent + "%s = np" % mm.group(1))
             continue
         if re.match(r"^@cython\.\w+(\(.*\))?$", body) or re.match(r"^@cython\.\w+$", body):
             continue          # compiler directives given as decorators
@@ -396,24 +613,30 @@ def translate(text, modname="?"):
                     cur_types()[n] = "int"
             out.append("%s    %s" % (ind, "; ".join(binds) if binds else "pass"))
             continue
-        m = _CDEF_VAR_RE.match(line)
-        if m:
-            ind, ctype, rest = m.groups()
-            ctype = _norm_type(ctype)
-            if "=" in rest:
-                name, expr = rest.split("=", 1)
-                name = name.strip()
+        if re.match(r"^\w+\.import_array\(\)$", body):
+            continue
+        m = re.match(r"^(\s*)cdef\s+(\w+)\s+([\w\s,]+)$", line)
+        if m and m.group(2) in structs:
+            out.append(m.group(1) + "; ".join("%s = %s()" % (n.strip(), m.group(2))
+                                              for n in m.group(3).split(",")))
+            continue
+        m = re.match(r"^(\s*)cdef\s+(.*)$", line)
+        ctype, rest = _match_type(m.group(2)) if m else (None, None)
+        if m and ctype is not None and not re.match(r"^\w+\s*\(", rest):
+            ind = m.group(1)
+            stmts = []
+            for item in _split_args(rest):
+                if "=" in item:
+                    name, expr = item.split("=", 1)
+                    name = name.strip()
+                else:
+                    name, expr = item.strip(), None
                 if not re.match(r"^\w+$", name):
                     raise ShimError("cannot parse cdef %r" % line)
                 cur_types()[name] = ctype
-                out.append("%s%s = %s" % (ind, name, _wrap(ctype, expr.strip())))
-            else:
-                for name in rest.split(","):
-                    name = name.strip()
-                    if not re.match(r"^\w+$", name):
-                        raise ShimError("cannot parse cdef %r" % line)
-                    cur_types()[name] = ctype
-                out.append("%spass" % ind)
+                if expr is not None:
+                    stmts.append("%s = %s" % (name, _wrap(ctype, expr.strip())))
+            out.append("%s%s" % (ind, "; ".join(stmts) if stmts else "pass"))
             continue
         if body.startswith("cdef") or body.startswith("cpdef"):
             raise ShimError("unsupported cdef construct in %s: %r" % (modname, line))
@@ -421,11 +644,28 @@ def translate(text, modname="?"):
             out.append(" " * indent + "if True:")
             continue
         line = re.sub(r"\bxrange\b", "range", line)
-        # plain assignment to a typed local:  name = expr
-        m = re.match(r"^(\s*)(\w+)\s*=(?!=)\s*(.+)$", line)
-        if m and m.group(2) in cur_types():
-            ind, name, expr = m.groups()
-            out.append("%s%s = %s" % (ind, name, _wrap(cur_types()[name], expr)))
+        # assignment to typed locals:  name = expr / a = b = expr / a, b = expr
+        parts = _split_assign(body)
+        if len(parts) >= 2 and not re.match(
+                r"^(if|elif|else|for|while|return|assert|with|try|except|finally|print|"
+                r"raise|del|import|from|global|lambda|yield|pass|break|continue)\b", body):
+            ind = " " * indent
+            targets = [p_.strip() for p_ in parts[:-1]]
+            expr = parts[-1].strip()
+            if len(targets) == 1 and targets[0] in cur_types():
+                out.append("%s%s = %s" % (ind, targets[0], _wrap(cur_types()[targets[0]], expr)))
+                continue
+            names = []
+            for t in targets:
+                t = t.strip()
+                if t.startswith("(") and t.endswith(")"):
+                    t = t[1:-1]
+                for n in _split_args(t):
+                    if re.match(r"^\w+$", n) and n in cur_types() and n not in names:
+                        names.append(n)
+            out.append(line)
+            for n in names:
+                out.append("%s%s = %s" % (ind, n, _wrap(cur_types()[n], n)))
             continue
         out.append(line)
     src = "\n".join(out) + "\n"
@@ -519,7 +759,7 @@ class Shim(object):
             mod.__dict__.update(dict(
                 _mv=_mv if unchecked else _mv_checked,
                 _strict=_strict if unchecked else _strict_checked,
-                _f64=_f64, _cint=_cint, _icast=_icast, fabs=fabs, fmax=fmax, fmin=fmin))
+                _f64=_f64, _cint=_cint, _icast=_icast, _Struct=_Struct, fabs=fabs, fmax=fmax, fmin=fmin))
             mod.__shim_directives__ = dirs
             import math as _m
             for nm in ("sqrt", "floor", "ceil", "exp", "log", "pow", "isnan", "isinf"):
